@@ -28,6 +28,7 @@ import (
 	"os"
 	"os/exec"
 	"os/user"
+	"path"
 	"path/filepath"
 	"sort"
 	"strings"
@@ -1218,19 +1219,88 @@ func (x *verifCountCtx) Err() error {
 // ---------------------------------------------------------------------------
 // import
 
-// importName makes up a member name. Most kinds aim somewhere: "ups" parent
-// elements lead from the snapshots directory to one of its ancestors (never
-// above the scratch directory), and the tail names a new file there or a
-// file that exists below it (system files, snap data), so that a name that
-// gets through is seen creating or modifying something.
+// importName makes up a member name. Most kinds aim somewhere. The name is
+//
+//	front + oldid + "_" + mid + "../"... + tail
+//
+// Import drops everything up to the first "_" and puts "<new id>_" in its
+// place, so where the file would land (were the name let through) is
+// computed here the same lexical way from what follows the first "_": one
+// of the ancestors of the snapshots directory, never above the scratch
+// directory. The tail then names a new file there or a file that exists
+// below it (system files, snap data), so that a name that gets through is
+// seen creating or modifying something. front is nothing, or just enough
+// (or one more than enough) directory components — plain, "./", doubled
+// slashes, containing a "_" themselves — to make the name as a whole look
+// local although the part that is kept is not.
 func (w *verifWorld) importName(good string) string {
 	c := w.c
 	prefix := []string{"5", "1", "", "x", "007", "99999999999999999999"}[c.Draw("name-prefix", 6)]
-	nups := 1 + c.Draw("name-ups", 6)
+	kind := c.Draw("name-kind", 20)
+	switch kind {
+	case 0:
+		return prefix + "_" + strings.SplitN(good+"_x", "_", 2)[1]
+	case 1:
+		return prefix + "_sub/dir/x.zip"
+	case 2:
+		return "nounderscore.zip"
+	case 3:
+		return []string{"", "_", prefix + "_importing", prefix + "_", "..", ".", prefix + "_..", prefix + "_a/..", "a/" + prefix + "_/..", "a/b/" + prefix + "_x/../.."}[c.Draw("name-odd", 10)]
+	}
+	nups := 1 + c.Draw("name-ups", 7)
+	mid := []string{"a/", "", "/", "a/./", "a//", "./", strings.Repeat("n", 150) + "/", "a/b/", "a/../"}[c.Draw("name-mid", 9)]
 	ups := strings.Repeat("../", nups)
-	landing := w.snapsDir
-	for i := 1; i < nups; i++ {
-		landing = filepath.Dir(landing)
+	if c.Draw("name-ups-form", 4) == 3 {
+		ups = strings.Repeat(".././", nups)
+	}
+	frontForm := 0
+	if kind >= 10 {
+		frontForm = 1 + c.Draw("name-front", 5)
+	}
+	front := func(k int) string {
+		switch frontForm {
+		case 0:
+			return ""
+		case 1:
+			return strings.Repeat("d/", k)
+		case 2:
+			return "./" + strings.Repeat("d/", k)
+		case 3:
+			return strings.Repeat("d//", k)
+		case 4:
+			return strings.Repeat("d/", k) + "e/../"
+		default:
+			return strings.Repeat("d_e/", k) // moves the first "_" to the front
+		}
+	}
+	local := func(name string) bool {
+		cl := path.Clean(name)
+		return !path.IsAbs(cl) && cl != ".." && !strings.HasPrefix(cl, "../")
+	}
+	k := 0
+	if frontForm != 0 {
+		for k < 12 && !local(front(k)+prefix+"_"+mid+ups+"t") {
+			k++
+		}
+		switch c.Draw("name-front-depth", 4) {
+		case 2:
+			k++
+		case 3:
+			if k > 0 {
+				k--
+			}
+		}
+	}
+	base := front(k) + prefix + "_" + mid + ups
+	// where would it land
+	landing := ""
+	if l := strings.SplitN(base, "_", 2); len(l) == 2 {
+		landing = path.Join(w.snapsDir, "0_"+l[1])
+	}
+	if landing == "" || !(landing == w.top || strings.HasPrefix(landing, w.top+"/")) {
+		// would leave the scratch directory (or no "_" at all): do not go up
+		base = front(k) + prefix + "_" + mid
+		landing = w.snapsDir
 	}
 	tail := "esc.zip"
 	switch c.Draw("name-tail", 4) {
@@ -1248,34 +1318,15 @@ func (w *verifWorld) importName(good string) string {
 			tail = files[c.Draw("name-target", len(files))]
 		}
 	}
-	switch c.Draw("name-kind", 16) {
-	case 0:
-		return prefix + "_" + strings.SplitN(good+"_x", "_", 2)[1]
-	case 1, 2, 3, 4:
-		return prefix + "_a/" + ups + tail
+	switch kind {
+	case 4:
+		return ups + tail // no id part at all
 	case 5:
-		return ups + tail
+		return "/" + tail
 	case 6:
 		return prefix + "_/" + tail
-	case 7:
-		return "/" + tail
-	case 8:
-		return prefix + "_.."
-	case 9:
-		return prefix + "_a/.."
-	case 10:
-		return prefix + "_sub/dir/x.zip"
-	case 11:
-		return "nounderscore.zip"
-	case 12:
-		return prefix + "_" + strings.Repeat("n", 150) + "/" + ups + tail
-	case 13:
-		return prefix + "_a/./" + strings.TrimSuffix(ups, "/") + "/" + tail
-	case 14:
-		return prefix + "_" + strings.TrimSuffix(ups, "/")
-	default:
-		return []string{"", "_", prefix + "_importing", prefix + "_", "..", "."}[c.Draw("name-odd", 6)]
 	}
+	return base + tail
 }
 
 func (w *verifWorld) opImport() {
